@@ -1429,6 +1429,9 @@ class RTCSctpTransport(AsyncIOEventEmitter):
         gap_next = None
         for tsn in sorted(self._sack_misordered):
             pos = (tsn - self._last_received_tsn) % SCTP_TSN_MODULO
+            if pos > 0xFFFF:
+                # gap ack block offsets are 16-bit, this TSN cannot be reported
+                continue
             if tsn == gap_next:
                 gaps[-1][1] = pos
             else:
